@@ -32,6 +32,10 @@ CONSTANTS KeyTypes,         \* host key types, e.g. {"ed", "rsa"}
           GuardKex,         \* TRUE: auth_* refuses unless initial_kex_done (code as read)
           EnforceExpected,  \* TRUE: run() ends the connection on a packet other than the expected kex packet (code as read)
           CompareFullKey,   \* TRUE: Transport.connect compares type and key bytes (code as read); FALSE: type only
+          ConGss, SshGss,   \* GSS-API flags the caller passes to Transport.connect / SSHClient.connect: subsets of
+                            \* {"none", "kex", "auth", "both"} (gss_kex / gss_auth requested).  The peer never does GSS.
+          GssFallback,      \* FALSE: Transport.connect with gss_kex requested attempts gssapi-keyex only (code as read);
+                            \* TRUE: it falls back to password / public key when no GSS key exchange took place
           AskPolicy         \* TRUE: SSHClient consults the missing-host-key policy for unknown hosts (code as read)
 
 \* values for the configuration files (records and sequences cannot be written there)
@@ -68,14 +72,24 @@ Shown(c) == IF Usable(c) = <<>> THEN NoKey ELSE CHOOSE k \in c.server : k.t = Us
 \* SubDict.get(type): the first matching entry of that type
 FirstOfType(es, t) == LET m == SelectSeq(es, LAMBDA e : e.key.t = t) IN IF m = <<>> THEN NoKey ELSE m[1].key
 PolicyAccepts(p) == p \in {"AutoAdd", "Warning", "CustomAccept"}
-\* what the caller does once the key exchange is done and the server presented `k`
+GssKex(c)  == c.gss \in {"kex", "both"}
+GssAuth(c) == c.gss \in {"auth", "both"}
+\* what the caller does once the key exchange is done (an ordinary one: gss_kex_used = False) and the server
+\* presented `k`:  "accept" = go on to password / public-key authentication;  "gss" = only a GSS-API method is
+\* attempted (it cannot succeed against this peer and carries no password / signature / responses);
+\* "gssfirst" = SSHClient tries gssapi-with-mic, then the ordinary credentials
 Decision(c, k) ==
   CASE c.api = "connect" ->
-         IF c.expect = NoKey THEN "accept"
-         ELSE IF k.t = c.expect.t /\ (CompareFullKey => k = c.expect) THEN "accept" ELSE "badhostkey"
+         \* `if (hostkey is not None) and not gss_kex`: the comparison is skipped when GSS kex was REQUESTED
+         IF c.expect # NoKey /\ ~GssKex(c) /\ ~(k.t = c.expect.t /\ (CompareFullKey => k = c.expect)) THEN "badhostkey"
+         ELSE IF GssAuth(c) THEN "gss"
+         ELSE IF GssKex(c) THEN (IF GssFallback THEN "accept" ELSE "gss")
+         ELSE "accept"
     [] c.api = "sshclient" ->
+         \* `if not self._transport.gss_kex_used`: always checked against this peer
          IF Ours(c) = <<>> THEN (IF AskPolicy THEN "policy" ELSE "accept")
-         ELSE IF FirstOfType(Ours(c), k.t) = k THEN "accept" ELSE "badhostkey"
+         ELSE IF FirstOfType(Ours(c), k.t) # k THEN "badhostkey"
+         ELSE IF GssAuth(c) THEN "gssfirst" ELSE "accept"
     [] OTHER -> "accept"
 \* the STATEMENT: who must not get anything
 MustRefuse(c, k) ==
@@ -101,18 +115,19 @@ vars == <<cfg, phase, active, kexDone, sigVerified, outEnc, shown, armed, pc, po
 NoArm == [m |-> "none", early |-> FALSE, stage |-> 0]
 SeqsUpTo(S, n) == UNION {[1..k -> S] : k \in 0..n}
 
-TrivialCfg(api, srv) == [api |-> api, expect |-> NoKey, sys |-> <<>>, usr |-> <<>>, policy |-> "Reject", port |-> "default", server |-> srv]
+TrivialCfg(api, srv) == [api |-> api, expect |-> NoKey, sys |-> <<>>, usr |-> <<>>, policy |-> "Reject", port |-> "default", server |-> srv,
+                         gss |-> "none"]
 Configs ==
   (IF "raw" \in Apis THEN {TrivialCfg("raw", s) : s \in ServerSets} ELSE {})
   \cup (IF "connect" \in Apis
-          THEN {[TrivialCfg("connect", s) EXCEPT !.expect = e] : s \in ServerSets, e \in Key \cup {NoKey}} ELSE {})
+          THEN {[TrivialCfg("connect", s) EXCEPT !.expect = e, !.gss = g] : s \in ServerSets, e \in Key \cup {NoKey}, g \in ConGss} ELSE {})
   \cup (IF "sshclient" \in Apis
           THEN UNION {UNION {
                  LET base == [TrivialCfg("sshclient", s) EXCEPT !.sys = SubSeq(all, 1, split), !.usr = SubSeq(all, split + 1, Len(all)),
-                                                                 !.port = port]
+                                                                 !.port = port, !.gss = g]
                  IN \* the policy matters only when the lookup finds nothing
                     IF Ours(base) = <<>> THEN {[base EXCEPT !.policy = p] : p \in Policies} ELSE {base}
-                 : s \in ServerSets, port \in {"default", "other"}, split \in 0..Len(all)}
+                 : s \in ServerSets, port \in {"default", "other"}, split \in 0..Len(all), g \in SshGss}
                : all \in SeqsUpTo(Entry, MaxEntries)}
           ELSE {})
 
@@ -191,9 +206,9 @@ CallerWait  == /\ pc = "wait" /\ (kexDone \/ phase = "closed")
                /\ UNCHANGED <<cfg, phase, active, kexDone, sigVerified, outEnc, shown, armed, policyAsked, policyAccepted, sent>>
 \* get_remote_server_key() compared with the expectation / the known keys
 CallerCheck == /\ pc = "check"
-               /\ pc' = (CASE Decision(cfg, shown) = "accept" -> "auth"
+               /\ pc' = (CASE Decision(cfg, shown) \in {"accept", "gssfirst"} -> "auth"
                            [] Decision(cfg, shown) = "policy" -> "policy"
-                           [] OTHER -> "raised")
+                           [] OTHER -> "raised")       \* "badhostkey"; "gss": the GSS-only attempt fails, nothing of value sent
                /\ UNCHANGED <<cfg, phase, active, kexDone, sigVerified, outEnc, shown, armed, policyAsked, policyAccepted, sent>>
 \* self._policy.missing_host_key(...): returns (accept) or raises
 CallerPolicy == /\ pc = "policy" /\ policyAsked' = TRUE
